@@ -1,13 +1,12 @@
 (* C04 -- redirections connect exactly the named descriptors to the named files. *)
-From Coq Require Import List Arith Bool.
+From Coq Require Import List Arith Bool Lia.
 From Cicada Require Import Base.Chars Model.Redirs Proofs.RedirsProofs.
-From Cicada Require Import Model.OsLite Model.Pipeline Proofs.OsLiteProofs Proofs.PipelineProofs.
+From Cicada Require Import Model.OsLite Model.Pipeline Proofs.OsLiteProofs Proofs.PipelineProofs Proofs.ChildProofs.
 Import ListNotations.
 
 Definition nf (_ : nat) := false.
 Definition yes (_ : nat) := true.
 Definition sh0 := mkp t_std [].
-Definition obj_at (t : table) (fd : nat) : option obj := option_map fst (lookup t fd).
 
 (* ---- parsing: every spelling of the property, attached or spaced, any file name, any arguments ---- *)
 Theorem C04_parse : forall (items : list item) (last : list tok),
@@ -22,22 +21,74 @@ Theorem C04_parse_from : forall op pre post s2 f,
 Proof. exact RedirsProofs.C04_parse_from. Qed.
 
 (* ---- application: the reference is the POSIX left-to-right fold posix_sinks ---- *)
-(* the sinks a single external command ends up with, in the model of the code *)
+(* what the property demands of stage idx of n: 0 is std_in (pipe / shell stdin / < file / here-string pipe),
+   (1, 2) are the left-to-right fold of the redirection list over what the stage would have had *)
+Definition sinks_ok (i0 o0 e0 : obj) (n : nat) (capture : bool) (idx : nat) (st : stage) (k : kid) : Prop :=
+  k_out k = OExec ->
+  let sk := posix_sinks (s_redirs st) (std_out o0 n capture idx, std_err e0 n capture idx) in
+  lookup (tab (k_proc k)) 0 = Some (std_in i0 idx st, false) /\
+  lookup (tab (k_proc k)) 1 = Some (fst sk, false) /\
+  lookup (tab (k_proc k)) 2 = Some (snd sk, false).
+
+(* the single child-side class left: a captured last stage ignores 2>&1 / 1>&2 *)
+Definition Known_C04_child (capture last : bool) (st : stage) : bool := known_capdup last capture st.
+
+(* every stage of every pipeline, every variant of the code *)
+Theorem C04_sinks : forall v fail_at openable pl sh i0 o0 e0,
+  std_ok (tab sh) i0 o0 e0 -> is_single_builtin pl = false ->
+  let r := run_pipeline v fail_at openable pl sh in
+  res_error r = false ->
+  kids_ok (fun idx st k =>
+             Known_C04_child (p_capture pl) (idx =? length (p_stages pl) - 1) st = false ->
+             sinks_ok i0 o0 e0 (length (p_stages pl)) (p_capture pl) idx st k)
+          0 (p_stages pl) (res_kids r).
+Proof.
+  intros v fail_at openable pl sh i0 o0 e0 SO NB r NE.
+  pose proof (kids_ok_bound _ _ _ _ (pipeline_kids v openable fail_at pl sh i0 o0 e0 SO NB NE)) as K.
+  eapply kids_ok_impl; [|exact K]. cbn beta. intros idx st k (KS & BD) KN HE. cbn in BD.
+  destruct (kid_std_fds _ _ _ _ _ _ _ _ _ _ _ KS HE) as (A & B & C).
+  assert (LE : idx <= length (p_stages pl) - 1) by lia.
+  assert (H : (idx =? length (p_stages pl) - 1) && p_capture pl = false \/ forallb is_file_redir (s_redirs st) = true).
+  { unfold Known_C04_child, known_capdup in KN.
+    destruct ((idx =? length (p_stages pl) - 1) && p_capture pl) eqn:LC; [right|left; reflexivity].
+    try rewrite LC in KN. cbn [andb] in KN. apply no_dups_all_file. exact KN. }
+  rewrite (final_sinks_posix (p_capture pl) (length (p_stages pl) - 1) idx (s_redirs st) o0 e0 LE H) in B, C.
+  replace (S (length (p_stages pl) - 1)) with (length (p_stages pl)) in B, C by lia.
+  cbv zeta. auto.
+Qed.
+
+(* a source or target that cannot be opened: the stage is not exec'd and exits with status 1;
+   otherwise it is exec'd (external), and exactly the files a POSIX shell opens are opened *)
+Theorem C04_unopenable : forall v fail_at openable pl sh i0 o0 e0,
+  std_ok (tab sh) i0 o0 e0 -> is_single_builtin pl = false ->
+  let r := run_pipeline v fail_at openable pl sh in
+  res_error r = false ->
+  kids_ok (fun idx st k =>
+             (opens_ok openable st = false -> k_out k = OExit 1) /\
+             (opens_ok openable st = true -> s_kind st = KExt -> k_out k = OExec))
+          0 (p_stages pl) (res_kids r).
+Proof.
+  intros v fail_at openable pl sh i0 o0 e0 SO NB r NE.
+  eapply kids_ok_impl; [|apply (pipeline_kids v openable fail_at pl sh i0 o0 e0 SO NB NE)].
+  cbn beta. intros idx st k (_ & A & B & _). split; [exact A|]. intros O KE. rewrite (B O), KE. reflexivity.
+Qed.
+
+(* ---- the builtin path (_get_std_fds) and the full statement ---- *)
 Definition child_sinks (capture : bool) (rs : list redir) : option obj * option obj :=
-  match res_kids (run_pipeline false nf yes (mkplan [mks FNone rs KExt []] capture) sh0) with
+  match res_kids (run_pipeline v0 nf yes (mkplan [mks FNone rs KExt []] capture) sh0) with
   | [k] => (obj_at (tab (k_proc k)) 1, obj_at (tab (k_proc k)) 2)
   | _ => (None, None)
   end.
 Definition builtin_sink (rs : list redir) (is_out : bool) : option obj :=
-  match res_sinks (run_pipeline false nf yes (mkplan [mks FNone rs KBuiltin [is_out]] false) sh0) with
+  match res_sinks (run_pipeline v0 nf yes (mkplan [mks FNone rs KBuiltin [is_out]] false) sh0) with
   | [o] => o
   | _ => None
   end.
 Definition some2 (p : obj * obj) : option obj * option obj := (Some (fst p), Some (snd p)).
 
 Definition C04_full : Prop :=
-  (forall rs, forallb (fun r => negb (out_of_scope r)) rs = true ->
-     child_sinks false rs = some2 (posix_sinks rs (OInh 1, OInh 2))) /\
+  (forall capture rs, forallb (fun r => negb (out_of_scope r)) rs = true ->
+     child_sinks capture rs = some2 (posix_sinks rs (std_out (OInh 1) 1 capture 0, std_err (OInh 2) 1 capture 0))) /\
   (forall rs, forallb (fun r => negb (out_of_scope r)) rs = true ->
      builtin_sink rs true = Some (fst (posix_sinks rs (OInh 1, OInh 2))) /\
      builtin_sink rs false = Some (snd (posix_sinks rs (OInh 1, OInh 2)))).
@@ -54,8 +105,9 @@ Example C04_refuted_builtin_order :
 Proof. vm_compute. split; reflexivity. Qed.
 (* $(prog 2>&1) : the duplication is ignored when the output is captured *)
 Example C04_refuted_capture_dup :
-  snd (child_sinks true [mkr F2 false TAmp1]) = Some (OPipeW PCapErr).
-Proof. vm_compute. reflexivity. Qed.
+  snd (child_sinks true [mkr F2 false TAmp1]) = Some (OPipeW PCapErr) /\
+  snd (posix_sinks [mkr F2 false TAmp1] (std_out (OInh 1) 1 true 0, std_err (OInh 2) 1 true 0)) = OPipeW PCapOut.
+Proof. vm_compute. split; reflexivity. Qed.
 
 Theorem C04_refuted : ~ C04_full.
 Proof.
@@ -63,26 +115,25 @@ Proof.
   vm_compute in H. discriminate.
 Qed.
 
-(* what the external-command path does right (instances; the general statement is checked against
-   the real binary by layer L2, see notes/C04.md): order matters and is respected *)
-Example C04_order_instances :
-  child_sinks false [mkr F2 false TAmp1; mkr F1 false (TFile 5)] = some2 (posix_sinks [mkr F2 false TAmp1; mkr F1 false (TFile 5)] (OInh 1, OInh 2)) /\
-  child_sinks false [mkr F1 false (TFile 5); mkr F2 false TAmp1] = some2 (posix_sinks [mkr F1 false (TFile 5); mkr F2 false TAmp1] (OInh 1, OInh 2)) /\
-  child_sinks false [mkr F1 true (TFile 5); mkr F2 true (TFile 6); mkr F1 false TAmp2] = some2 (posix_sinks [mkr F1 true (TFile 5); mkr F2 true (TFile 6); mkr F1 false TAmp2] (OInh 1, OInh 2)).
-Proof. vm_compute. repeat split; reflexivity. Qed.
-
-(* only the redirected command is affected: the shell's own table is what it was, for every pipeline,
-   every redirection list, every unopenable target *)
-Theorem C04_shell_unaffected : forall fixed openable pl sh,
+(* only the redirected command is affected: the shell's own table is what it was *)
+Theorem C04_shell_unaffected : forall v openable pl sh,
   is_single_builtin pl = false ->
-  teq_tab (res_shell (run_pipeline fixed nf openable pl sh)) (tab sh).
+  teq_tab (res_shell (run_pipeline v nf openable pl sh)) (tab sh).
 Proof.
-  intros fixed openable pl sh NB.
-  destruct (shell_restored fixed nf openable pl sh NB) as (A & _); [|exact A].
+  intros v openable pl sh NB.
+  destruct (shell_restored v nf openable pl sh NB) as (A & _); [|exact A].
   unfold capture_fails, nf. rewrite Bool.andb_false_r. discriminate.
 Qed.
 
+(* non-vacuity of C04_sinks: order matters and is respected (2>&1 >f vs >f 2>&1) *)
+Example C04_order_instances :
+  child_sinks false [mkr F2 false TAmp1; mkr F1 false (TFile 5)] = (Some (OFile 5 MTrunc), Some (OInh 1)) /\
+  child_sinks false [mkr F1 false (TFile 5); mkr F2 false TAmp1] = (Some (OFile 5 MTrunc), Some (OFile 5 MTrunc)).
+Proof. vm_compute. split; reflexivity. Qed.
+
 Print Assumptions C04_parse.
 Print Assumptions C04_parse_from.
+Print Assumptions C04_sinks.
+Print Assumptions C04_unopenable.
 Print Assumptions C04_shell_unaffected.
 Print Assumptions C04_refuted.
